@@ -54,8 +54,13 @@ std::string gen_value_text(Rng & r, bool multiline, std::string * normalised, co
 	// words joined by runs of blanks; continuation lines always indented
 	std::string raw, norm;
 	int nw = (int)r.range(1, 5);
+	// one multi-line value in three continues on UN-indented lines (any line of the block that is not `key:` continues the value);
+	// such a line starts with a plain word, and nothing after the first break carries a colon, so it cannot be read as a key
+	bool unindented = multiline && r.chance(1, 3), broke = false;
+	static const char * SAFE[] = {"alpha", "Beta", "v", "w", "it's", "caf\xc3\xa9", "abc.", "\xc3\xbc" "ber", "x<y"};
 	for (int i = 0; i < nw; i++) {
 		std::string wd = WORDS[r.below(NWORDS)];
+		if (unindented && broke && wd.find(':') != std::string::npos) wd = "w";
 		if (r.chance(1, 6)) {
 			// a word with random multi-byte characters: every continuation byte value (0x80..0xBF, incl. 0xA0 and 0x85) gets its turn
 			wd = "u";
@@ -67,7 +72,13 @@ std::string gen_value_text(Rng & r, bool multiline, std::string * normalised, co
 			}
 		}
 		if (i == 0 && wd.compare(0, 2, "//") == 0) wd = "x";
-		if (i) { if (multiline && r.chance(1, 3)) raw += blanks(r, 0, 2) + eol + (r.chance(1, 2) ? "\t" : "    ") + blanks(r, 0, 2); else raw += blanks(r, 1, 3); norm += " "; }
+		if (i) {
+			if (multiline && r.chance(1, 3)) {
+				if (unindented) { raw += blanks(r, 0, 2) + eol; wd = SAFE[r.below(sizeof(SAFE) / sizeof(SAFE[0]))]; broke = true; }
+				else raw += blanks(r, 0, 2) + eol + (r.chance(1, 2) ? "\t" : "    ") + blanks(r, 0, 2);
+			} else raw += blanks(r, 1, 3);
+			norm += " ";
+		}
 		raw += wd; norm += wd;
 	}
 	*normalised = norm;
